@@ -202,16 +202,6 @@ theorem dropWs_idem (x : Bytes) : dropWs (dropWs x) = dropWs x := by
     · have : dropWs (c :: t) = c :: t := dropWs_of_head (by simpa using h)
       rw [this, this]
 
-theorem number_loose {p : Bytes} (rest : Bytes) (h : Number p) : NumberLoose p rest := by
-  obtain ⟨m, i, f, e, hm, hi, hf, he⟩ := h
-  exact NumberG.mk m i f e rest hm hi hf (Or.inl he)
-
-theorem numberLoose_nil {p : Bytes} (h : NumberLoose p []) : Number p := by
-  obtain ⟨m, i, f, e, _, hm, hi, hf, he⟩ := h
-  rcases he with he | ⟨_, hne⟩
-  · exact Number.mk m i f e hm hi hf he
-  · exact absurd rfl hne
-
 theorem number_head {s : Bytes} (h : Number s) : ∃ c t, s = c :: t ∧ (c = 0x2d#8 ∨ isDigit c = true) := by
   obtain ⟨m, i, f, e, hm, hi, _, _⟩ := h
   obtain ⟨c, t, rfl, hc⟩ := intPart_head hi
@@ -279,7 +269,7 @@ theorem quotedNumber_iff (s raw : Bytes) : quotedNumber s = some raw ↔ raw = s
         · rfl
         · exact dropWs_of_head (trim_no_ws_head htrim)
       rw [hs0] at hpn hr hrest'
-      obtain ⟨p, r, hs, hn, _, hloose⟩ := (parseNumber_exact s n).1 hpn
+      obtain ⟨p, r, hs, hn, _, hnumber⟩ := (parseNumber_exact s n).1 hpn
       have htake : s.take n = p := by rw [hs, ← hn]; exact List.take_left' rfl
       have hdrop : s.drop n = r := by rw [hs, ← hn]; simp
       -- everything after the number is whitespace, hence empty
@@ -301,15 +291,14 @@ theorem quotedNumber_iff (s raw : Bytes) : quotedNumber s = some raw ↔ raw = s
       subst hr0
       rw [List.append_nil] at hs
       subst hs
-      exact ⟨by rw [← hraw, hr, htake], numberLoose_nil hloose⟩
+      exact ⟨by rw [← hraw, hr, htake], hnumber⟩
     next => cases h
   · rintro ⟨rfl, hnum⟩
-    have hloose := number_loose [] hnum
     obtain ⟨c, t, rfl, hc⟩ := number_head hnum
     obtain ⟨a, l, hal, hl⟩ := number_last_digit hnum
     have htrim := trimSpaceUnchanged_of_number hal hc hl
     have hpn : parseNumber (c :: t) = some (c :: t).length := by
-      exact (parseNumber_exact (c :: t) (c :: t).length).2 ⟨c :: t, [], by simp, rfl, DelimOK.nil, hloose⟩
+      exact (parseNumber_exact (c :: t) (c :: t).length).2 ⟨c :: t, [], by simp, rfl, DelimOK.nil, hnum⟩
     have hp := parseNextG_whole_number (pn := parseNumber) hc hpn
     have h1 : read ((c :: t).length + 1) { inp := c :: t } =
         .ok ({ kind := .number, raw := c :: t }, { lastKind := .number, stack := [], inp := [] }) := by
